@@ -12,9 +12,9 @@ import (
 	"path/filepath"
 	"regexp"
 	"strconv"
-	"syscall"
 	"strings"
 	"sync"
+	"syscall"
 	"time"
 	"unicode"
 
@@ -95,7 +95,7 @@ func c09Setup() *c09Env {
 	}
 	e := &c09Env{tmp: tmp}
 	e.env = []string{"HOME=" + filepath.Join(tmp, "home"), "PATH=" + filepath.Join(tmp, "emptybin"), "TMPDIR=" + filepath.Join(tmp, "t"),
-		"XDG_CONFIG_HOME=" + filepath.Join(tmp, "cfg"), "PPROF_TMPDIR=" + filepath.Join(tmp, "ptmp"), "TERM=dumb", "GOTRACEBACK=single"}
+		"XDG_CONFIG_HOME=" + filepath.Join(tmp, "cfg"), "PPROF_TMPDIR=" + filepath.Join(tmp, "ptmp"), "TERM=dumb", "GOMEMLIMIT=2GiB"}
 	// the in-process runs see the same environment
 	for _, kv := range e.env {
 		i := strings.IndexByte(kv, '=')
@@ -116,6 +116,24 @@ var (
 )
 
 const c09ProcTimeout = 20 * time.Second
+
+// c09ChildCPU: user+system CPU time consumed so far by process pid (Linux /proc; 0 if unknown).
+func c09ChildCPU(pid int) time.Duration {
+	b, err := os.ReadFile(fmt.Sprintf("/proc/%d/stat", pid))
+	if err != nil {
+		return 0
+	}
+	st := string(b)
+	if i := strings.LastIndexByte(st, ')'); i >= 0 {
+		f := strings.Fields(st[i+1:])
+		if len(f) > 12 {
+			ut, _ := strconv.ParseInt(f[11], 10, 64)
+			stt, _ := strconv.ParseInt(f[12], 10, 64)
+			return time.Duration(ut+stt) * 10 * time.Millisecond // USER_HZ = 100
+		}
+	}
+	return 0
+}
 
 type c09ProcResult struct {
 	cs       *c09Case
@@ -166,6 +184,17 @@ func c09Exec(c *Ctx, e *c09Env, id int, cs *c09Case) *c09ProcResult {
 	select {
 	case <-done:
 	case <-time.After(c09ProcTimeout):
+		// a starved process on an overloaded machine is not a hang: unless the child has already burnt
+		// several CPU seconds, give it more wall time before deciding
+		if c09ChildCPU(cmd.Process.Pid) < 5*time.Second {
+			select {
+			case <-done:
+				res.exit = cmd.ProcessState.ExitCode()
+				res.stderr = errb.String()
+				return res
+			case <-time.After(3 * c09ProcTimeout):
+			}
+		}
 		// ask the Go runtime for the goroutine stacks (to name the place that hangs), then kill
 		cmd.Process.Signal(syscall.SIGQUIT)
 		select {
@@ -192,7 +221,7 @@ func c09Judge(c *Ctx, r *c09ProcResult) string {
 		if loc := c09Goro1Rx.FindStringIndex(se); loc != nil {
 			site = c09HangSite(se[loc[0]:])
 		}
-		c.Violation("C09/hang/"+site, fmt.Sprintf("pprof did not finish within %v: %s", c09ProcTimeout, cs.Text), cs)
+		c.Violation("C09/hang/"+site, fmt.Sprintf("pprof does not finish (killed after >= %v): %s", c09ProcTimeout, cs.Text), cs)
 		return "hang"
 	case c09PanicRx.MatchString(se) && c09GoroRx.MatchString(se):
 		site := c09PanicSite(se[c09PanicRx.FindStringIndex(se)[0]:])
@@ -475,8 +504,11 @@ func c09ParseOptions(text string) map[string]string {
 		}
 		name := strings.TrimSpace(ln[:i])
 		rest := ln[i+3:]
-		if j := strings.LastIndex(rest, " //: "); j >= 0 {
-			rest = rest[:j]
+		// only these options carry a "//: …" comment; elsewhere "//:" can be part of the value
+		if name == "sort" || name == "granularity" || name == "sample_index" || name == "nodecount" {
+			if j := strings.Index(rest, " //: "); j >= 0 {
+				rest = rest[:j]
+			}
 		}
 		m[name] = strings.TrimRight(rest, " ")
 	}
@@ -724,6 +756,56 @@ func c09Locate(c *Ctx, file, buildID string, npaths int) {
 }
 
 // ------------------------------------------------------------------------------------------
+// correspondence 3b: -symbolize=<mode> option string (symbolizer.Symbolize, demanglerModeToOptions)
+// ------------------------------------------------------------------------------------------
+
+func c09SymMode(c *Ctx, mode string) {
+	cs := &c09Case{Kind: "symmode", Value: hex.EncodeToString([]byte(mode)), Text: fmt.Sprintf("-symbolize=%q", mode)}
+	p := c09SaneProfile("")
+	p.Mapping[0].HasFunctions = false // so that local symbolization tries to open the binary
+	run := c09PProf(p, []string{"-top", "-output=c09out", "-symbolize=" + mode}, nil)
+	c.Res.ModelCompared++
+	if run.Panic != "" {
+		c.Violation("C09/panic/"+c09PanicSite(run.Panic), "driver.PProf panics on "+cs.Text+": "+c09Trunc(run.Panic, 160), cs)
+		return
+	}
+	unknown := strings.Count(run.UI.allErrs(), "ignoring unrecognized symbolization option")
+	local := 0
+	for _, n := range run.Obj.opens {
+		if n == "/bin/prog" {
+			local = 1
+		}
+	}
+	model := c.Drv.Ask("symmode " + hexTok([]byte(mode)))
+	c.Res.Hit("symmode/model=" + c09FirstWord(model))
+	c.Res.Count("symmode "+cs.Value, strings.Contains(mode, "demangle") || strings.Contains(mode, ":"))
+	ok := run.Err == nil
+	f := strings.Fields(model)
+	switch {
+	case model == "skip": // "none"/"no": returns before symbolizing (messages for earlier options may have been printed)
+		ok = ok && local == 0
+	case len(f) == 4 && f[0] == "run":
+		ok = ok && f[1] == strconv.Itoa(local) && f[2] == strconv.Itoa(unknown)
+	default:
+		ok = false
+	}
+	if !ok {
+		c.Disagree("C09/corr/symmode", fmt.Sprintf("%s: model %q; real: local symbolization attempted=%d, unrecognized-option messages=%d, err=%v", cs.Text, model, local, unknown, run.Err),
+			"symbolize_mode_no_panic (model of symbolizer.Symbolize's option string no longer corresponds)", cs)
+	}
+}
+
+func c09SymModeGen(r *Rng) string {
+	opts := []string{"", "none", "no", "local", "fastlocal", "remote", "force", "demangle=full", "demangle=none", "demangle=templates", "demangle=default",
+		"demangle=", "demangle=x", "demangle", "Local", "FORCE", "Demangle=Full", "junk", "loc al", "demangle=full=x", "=", "demangle=demangle=full", "none ", "NO"}
+	var parts []string
+	for i, n := 0, 1+r.Intn(4); i < n; i++ {
+		parts = append(parts, opts[r.Intn(len(opts))])
+	}
+	return strings.Join(parts, ":")
+}
+
+// ------------------------------------------------------------------------------------------
 // correspondence 4: command and option tables
 // ------------------------------------------------------------------------------------------
 
@@ -876,6 +958,10 @@ func runC09(c *Ctx) {
 		return
 	}
 	r := NewRng(c.Seed)
+	scale := c.Scale
+	if scale > 1 {
+		scale *= 3 // thorough tier: ~10 minutes
+	}
 	// C09_ONLY=web,session,… restricts the run to some phases (development aid; the random streams
 	// of the phases are independent forks, so a phase behaves the same alone)
 	only := os.Getenv("C09_ONLY")
@@ -883,7 +969,7 @@ func runC09(c *Ctx) {
 	rCamp, rt, rs, rw := r.Fork(), r.Fork(), r.Fork(), r.Fork()
 
 	// ---- campaign cases for the real binary run in the background while the in-process parts run
-	nCLI, nScript := 1500*c.Scale, 700*c.Scale
+	nCLI, nScript := 4000*scale, 1800*scale
 	var cases []*c09Case
 	if !want("cli") {
 		nCLI = 0
@@ -956,7 +1042,7 @@ func runC09(c *Ctx) {
 	if want("tables") {
 		c09Tables(c)
 	}
-	for i := 0; i < 3000*c.Scale && want("tagfilter"); i++ {
+	for i := 0; i < 5000*scale && want("tagfilter"); i++ {
 		c09Tagfilter(c, c09TagValue(rt, i%6 == 0))
 	}
 	for _, f := range []string{"", "/bin/prog", "prog", "/"} {
@@ -969,7 +1055,11 @@ func runC09(c *Ctx) {
 			}
 		}
 	}
-	for i := 0; i < 500*c.Scale && want("session"); i++ {
+	rm := r.Fork()
+	for i := 0; i < 150*scale && want("symmode"); i++ {
+		c09SymMode(c, c09SymModeGen(rm))
+	}
+	for i := 0; i < 1000*scale && want("session"); i++ {
 		var lines []string
 		for j, n := 0, 4+rs.Intn(10); j < n; j++ {
 			lines = append(lines, c09ScriptLine(rs, []string{"samples", "cpu", "alloc_space"}, i%6 == 0, true))
@@ -982,7 +1072,7 @@ func runC09(c *Ctx) {
 	}
 
 	// ---- web handlers
-	for i := 0; i < 30*c.Scale && want("web"); i++ {
+	for i := 0; i < 60*scale && want("web"); i++ {
 		p := c09Profile(rw, false, i%4 == 1)
 		pb := c09ProfileBytes(p)
 		if pb == nil {
@@ -1031,6 +1121,8 @@ func c09Replay(c *Ctx, e *c09Env) {
 		c09Tagfilter(c, unhex(cs.Value))
 	case "session":
 		c09Session(c, unhex(cs.Value), unhexAll(cs.Lines))
+	case "symmode":
+		c09SymMode(c, unhex(cs.Value))
 	case "locate":
 		a := unhexAll(cs.Args)
 		if len(a) == 2 {
